@@ -74,7 +74,10 @@ package index
 //@   call[littleEndian.Uint64#0] assert offset_field_of_that_record [C03,C07]: ref(arg1) == subref(ref(s.index), digestEnd) && digestEnd == (idx + 1) * s.width - 8
 //@   call[dynamic#0] assert yields_that_offset [C03,C07]: arg0 == off && same
 //@   loop[0] step next_record_only_after_a_match_the_caller_wants_more_of [C03,C07]: same && more && idx == athead(0, idx) + 1
-//@   ensures notfound_iff_nothing_matched [C03,C07]: (err == ErrNotFound) == !cur(any) && (err == nil) == cur(any)
+//@   ghost before call[sort.Search#0]: mark(s) := 0
+//@   ghost after call[dynamic#0]: mark(s) := 1
+//@   loop[0] invariant any_iff_the_callback_ran [C03,C07]: cur(any) == (mark(s) == 1) && (mark(s) == 0 || mark(s) == 1)
+//@   ensures notfound_iff_the_callback_never_ran [C03,C07]: (err == ErrNotFound) == (mark(s) == 0) && (err == nil) == (mark(s) == 1)
 //@   closure[0]
 //@     requires bucket [C03,C09]: 8 <= s.width && s.width <= 33554432 && s.len * s.width <= len(s.index)
 //@     assume search_protocol: 0 <= i && i < s.len
